@@ -988,6 +988,8 @@ def run_data_case(case, blocking=False):
     # close_notify is application data (or TLS 1.3 tickets) and the transport had not failed before
     clean_prefix = all(i[0] == 'data' or i == ('hs', True) for i in items[used:])
     cn_arrived = False
+    waiting = list(items[used:])      # everything that arrived and that no read/close has looked at yet
+    consumed_any = False
     for op in case['script']:
         k = op[0]
         if k in ('pku', 'phb', 'ppha') and not peer_can(P, k):
@@ -1004,6 +1006,8 @@ def run_data_case(case, blocking=False):
                     events.append('NIn %s' % item_lit(it))
                     if it[0] == 'alert' and live:
                         sent_alerts.append((it[1], it[2]))
+                    if live:
+                        waiting.append(it)
                     if live and not cn_arrived:
                         if it[0] == 'alert' and it[2] == 0:
                             cn_arrived = True
@@ -1089,6 +1093,17 @@ def run_data_case(case, blocking=False):
                     viol.append(('not-closed-after-exception:%s:%s%s' % (k, c[0], tail),
                                  '%s raised %r but the connection is not closed (closed=False, session.resumable=%r; '
                                  '%s in the receive buffers when it was called)' % (k, c, now_res, pending)))
+            if (k in ('keyupdate', 'pha') and not usage and not closed_before and not consumed_any and waiting
+                    and waiting[0][0] == 'alert' and waiting[0][1] == 2 and waiting[0][2] != 0
+                    and r[0] == 'exc' and c[0] in ('SockError', 'AbruptClose')):
+                # nothing has been read since the handshake, the first thing waiting is a fatal alert of the
+                # peer, and the send of this handshake-type message failed: the alert is the explanation
+                viol.append(('alert-not-surfaced:%s:%s' % (k, site),
+                             '%s failed with %r although the fatal alert %r of the peer was the next record waiting: '
+                             'a fatal alert received from the peer must be surfaced as TLSRemoteAlert'
+                             % (k, c, tuple(waiting[0][1:]))))
+            if k in ('read', 'close') or (r[0] == 'exc' and not usage):
+                consumed_any = True
             if k == 'read' and not closed_before and cn_arrived and clean_prefix:
                 # the peer ended the stream properly: data, close_notify (whatever happened to the transport afterwards)
                 if r[0] == 'exc':
